@@ -84,24 +84,40 @@ func RuleIDs() []string {
 // contains one of the Scope substrings (e.g. a package path).
 type RuleRef struct {
 	ID    string
-	Scope []string // substrings of the obligation key; empty = all
+	Scope []string // substrings of the obligation key (any); empty = all
+	Must  []string // substrings that must all occur in the key
+	Not   []string // substrings that must not occur in the key
 	Floor int      // floor for the scoped view (0 = rule's own floor when unscoped, else 1)
 }
 
 func (rr RuleRef) view(full *report.RuleResult) *report.RuleResult {
-	if len(rr.Scope) == 0 {
+	if len(rr.Scope) == 0 && len(rr.Must) == 0 && len(rr.Not) == 0 {
 		return full
 	}
-	v := &report.RuleResult{Rule: full.Rule, Note: full.Note + " [scope: " + strings.Join(rr.Scope, ", ") + "]", Err: full.Err, Floor: rr.Floor}
+	v := &report.RuleResult{Rule: full.Rule, Note: full.Note + " [scope: " + strings.Join(append(append(append([]string{}, rr.Scope...), rr.Must...), rr.Not...), ", ") + "]", Err: full.Err, Floor: rr.Floor}
 	if v.Floor == 0 {
 		v.Floor = 1
 	}
 	for _, ob := range full.Obs {
+		ok := len(rr.Scope) == 0
 		for _, s := range rr.Scope {
 			if strings.Contains(ob.Key, s) {
-				v.Obs = append(v.Obs, ob)
+				ok = true
 				break
 			}
+		}
+		for _, s := range rr.Must {
+			if !strings.Contains(ob.Key, s) {
+				ok = false
+			}
+		}
+		for _, s := range rr.Not {
+			if strings.Contains(ob.Key, s) {
+				ok = false
+			}
+		}
+		if ok {
+			v.Obs = append(v.Obs, ob)
 		}
 	}
 	return v
